@@ -1,6 +1,7 @@
 Require Import FastZ.
 From Dashu Require Import Base.Prelude Float.RoundSpec Float.Contract Float.Model Int.IoSpec Float.TextIoSpec Float.TextIoModel Conv.ConvSpec Conv.ConvModel Float.IeeeImportModel Float.LargeExpBound
-  Float.ElemF32 Float.ElemAsis Float.LargeExpAsis Float.WithBasePrec Int.GrlSpec Int.IoModel Int.IoDebugModel Float.DebugSpec Float.PartsConstModel.
+  Float.ElemF32 Float.ElemAsis Float.LargeExpAsis Float.WithBasePrec Int.GrlSpec Int.IoModel Int.IoDebugModel Float.DebugSpec Float.PartsConstModel
+  Float.ConvBaseModel4 Float.ConvBaseFull4 Float.RadixFmtModel.
 From DashuGen Require Import ConvBaseGen.
 Extraction "model.ml" check_contract check_within_ulp check_within_ulp_incl dlen x_exp cmp_kx spec_round normalize
   parse_spec display_spec sci_spec display_body_spec sci_body_spec pad_spec layout_ok with_precision_spec float_rat base_prec_spec power_related
@@ -10,4 +11,6 @@ Extraction "model.ml" check_contract check_within_ulp check_within_ulp_incl dlen
   large_work_precision_gen threshold_small_exp_gen with_base_prec_gen from_float_prec_gen
   f32_pos_decode with_base_prec_code wb_L wb_U log2_lb_dec
   radix_info repr_debug_spec fbig_debug_spec repr_debug_alt_spec fbig_debug_alt_spec
-  from_parts_const_asis from_parts_const_spec fbig_from_str_asis.
+  from_parts_const_asis from_parts_const_spec fbig_from_str_asis
+  convert_base_asis4 convert_base_full_asis4 convert_base_spec common_root
+  radix_format radix_asis radix_spec radix_body_asis radix_body_spec.
